@@ -4,4 +4,4 @@ package pool
 
 func verifAcquire(*Pool, *Message) {}
 
-func verifRelease(*Pool, *Message) {}
+func verifRelease(*Pool, *Message) bool { return false }
